@@ -247,7 +247,7 @@ def run(model: Model, rep: Report, tier: str) -> None:
         "round trip beyond these necessary conditions."
     )
     rep.trusted_base = ["Python operator precedence as implemented by ast.parse", "eval() of the printed text against LOCALS"]
-    rep.floors = {"R12.1": 6, "R12.2": 10, "R12.3": 20, "R12.4": 3, "R12.5": 1, "R12.6": 4, "R12.7": 8}
+    rep.floors = {"R12.1": 6, "R12.2": 10, "R12.3": 20, "R12.4": 3, "R12.5": 1, "R12.6": 4, "R12.7": 8, "R12.10": 1, "R12.11": 1}
     # ------------------------------------------------------------------ R12.5 hoisting of subscripts
     from ..refcmp import load_reference, run_table
     from ..setalg import SetAlg
@@ -264,6 +264,8 @@ def run(model: Model, rep: Report, tier: str) -> None:
     exprs = concrete_expression_classes(model)
     _products_flat(model, rep, exprs)
     _printer_family(model, rep, pr, classes)
+    _reader_is_transparent(model, rep)
+    _order_free_fields(model, rep)
     # ------------------------------------------------------------------ R12.1
     pm, table = _fold_locals(model)
     heads: dict[str, list] = {}
@@ -535,6 +537,84 @@ def _printer_family(model: Model, rep: Report, pr: "Printers", classes) -> None:
                 rep.refuted("R12.7", cons, "; ".join(sorted(set(problems))[:2]), loc(f))
             else:
                 rep.proven("R12.7", cons, loc=loc(f), sample={"slots read": n_slots}, nontrivial=n_slots > 0)
+
+
+def _reader_is_transparent(model: Model, rep: Report) -> None:
+    """R12.10: parse_y0 hands back what the text evaluates to -- nothing is simplified, reordered or re-wrapped on the way out (otherwise
+    parse_y0(str(e)) is some other object than e for the expressions that step changes)."""
+    q = "y0.parser.internal.parse_y0"
+    if q not in model.functions:
+        rep.unknown("R12.10", "y0.parser.internal:parse_y0#transparent", "parse_y0 not found", "")
+        return
+    f = model.functions[q]
+    ev = Evaluator(model)
+    paths = ev.run(f, {f.params[0]: typed(ev, f.params[0], "str")})
+    rets = return_paths(paths)
+    problems = []
+    n_eval = 0
+    for p in rets:
+        v = p.value
+        while v[0] == "call" and isinstance(v[1], str) and v[1].split(".")[-1] == "cast" and len(v[2]) == 2:
+            v = v[2][1]
+        if v[0] == "call" and v[1] == "eval":
+            n_eval += 1
+            continue
+        if any(s_[0] == "call" and s_[1] == "eval" for s_ in subterms(v)):
+            problems.append(f"line {p.line}: the evaluated text is post-processed before it is returned ({short(show(v), 100)}): for the expressions this step changes, "
+                            f"parse_y0(str(e)) is not e")
+        else:
+            problems.append(f"line {p.line}: returns {short(show(v), 80)}, not the evaluated text")
+    cons = construct(f, "transparent")
+    if problems:
+        rep.refuted("R12.10", cons, "; ".join(sorted(set(problems))[:2]), loc(f))
+    elif n_eval:
+        rep.proven("R12.10", cons, loc=loc(f), sample={"return paths": len(rets)})
+    else:
+        rep.unknown("R12.10", cons, "no return path evaluates the text", loc(f))
+
+
+def _order_free_fields(model: Model, rep: Report) -> None:
+    """R12.11: a field declared `frozenset[...]` holds a set in every object the DSL's own builders make: an ordered container there makes two objects
+    that print the same text unequal (Q[A](Y, X) vs Q[A](X, Y)), so the printed form cannot be parsed back to the object."""
+    from ..keys import _kind
+    dsl = model.modules.get("y0.dsl")
+    n = 0
+    for K in [c for c in model.classes.values() if c.module is dsl and c.is_dataclass]:
+        set_fields = []
+        for fld, ann in K.all_fields().items():
+            a_ = ann
+            if isinstance(a_, ast.Subscript) and isinstance(a_.value, ast.Name) and a_.value.id in ("frozenset", "set", "FrozenSet", "Set", "AbstractSet"):
+                set_fields.append(fld)
+        if not set_fields:
+            continue
+        for mname, m in sorted(K.methods.items()):
+            if not (m.is_classmethod or m.is_staticmethod) or mname.startswith("__"):
+                continue
+            ev = Evaluator(model, primitives={f"{DSL}._upgrade_ordering", f"{DSL}._upgrade_variables", f"{DSL}._sorted_variables", f"{DSL}.Variable.norm"})
+            try:
+                paths = return_paths(ev.run(m, {p_: var(p_) for p_ in m.params if p_ not in ("cls",)}, self_term=("ref", K.qname)) if m.is_classmethod
+                                     else ev.run(m, {p_: var(p_) for p_ in m.params}))
+            except Exception:  # noqa: BLE001
+                continue
+            problems, built = [], 0
+            for p in paths:
+                for s_ in subterms(p.value):
+                    if s_[0] in ("rec", "new") and s_[1] == K.qname:
+                        fl = dict(s_[2]) if s_[0] == "rec" else dict(s_[3])
+                        for fld in set_fields:
+                            if fld in fl:
+                                built += 1
+                                k_ = _kind(fl[fld], ev)
+                                if k_ is not None and k_ != "set":
+                                    problems.append(f"{K.name}.{fld} is declared a frozenset but {mname}() builds it as {short(show(fl[fld]), 80)} (an ordered "
+                                                    f"{k_[0] if isinstance(k_, tuple) else k_}): objects that differ only in the order the variables were given "
+                                                    f"print the same text and are unequal")
+            if built:
+                n += 1
+                cons = construct(m, f"order-free:{K.name}")
+                (rep.refuted if problems else rep.proven)("R12.11", cons, "; ".join(sorted(set(problems))[:2]), loc(m), sample={"constructions read": built})
+    if n == 0:
+        rep.unknown("R12.11", "y0.dsl:#order-free", "no builder of a class with frozenset fields was read", "", required=False)
 
 
 def _products_flat(model: Model, rep: Report, exprs) -> None:
